@@ -408,6 +408,61 @@ func runConcurrent(c *Case) (v *verdict, inconclusive bool) {
 	return &verdict{"concurrent/not-linearizable", "recorded history has no linearization against the map model:\n" + sb.String()}, false
 }
 
+// runRenamed: the same history on a standard tree and on a tree configured with
+// another separator and other wildcard symbols (topics translated level by
+// level) must give the same answers to every query: the symbols are
+// configuration, not meaning.
+func runRenamed(c *Case, sep, one, some string) *verdict {
+	xl := func(t string) string {
+		ls := strings.Split(t, "/")
+		for i, l := range ls {
+			switch l {
+			case "+":
+				ls[i] = one
+			case "#":
+				ls[i] = some
+			}
+		}
+		return strings.Join(ls, sep)
+	}
+	std, ren := topic.NewStandardTree(), topic.NewTree(sep, one, some)
+	diff := func(step int, what string, a, b []interface{}) *verdict {
+		x, y := toInts(a), toInts(b)
+		if !eq(x, y) {
+			return &verdict{"renamed/" + what + "-differs", fmt.Sprintf("step %d: %s = %v on the standard tree, %v on a tree with separator %q and wildcards %q %q (same history, topics translated)", step, what, x, y, sep, one, some)}
+		}
+		return nil
+	}
+	for i, o := range c.Ops {
+		m := reftopic.Model{}
+		apply(std, m, o)
+		o2 := o
+		o2.Topic = xl(o.Topic)
+		apply(ren, m, o2)
+		for _, tp := range universe(c.Mode) {
+			if v := diff(i, "Get("+tp+")", std.Get(tp), ren.Get(xl(tp))); v != nil {
+				return v
+			}
+		}
+		for _, q := range probes(c.Mode) {
+			if c.Mode == "names" {
+				if v := diff(i, "Search("+q+")", std.Search(q), ren.Search(xl(q))); v != nil {
+					return v
+				}
+			} else if v := diff(i, "Match("+q+")", std.Match(q), ren.Match(xl(q))); v != nil {
+				return v
+			}
+		}
+		if v := diff(i, "All()", std.All(), ren.All()); v != nil {
+			return v
+		}
+		if std.Count() != ren.Count() {
+			return &verdict{"renamed/count-differs", fmt.Sprintf("step %d: Count() = %d on the standard tree, %d on the renamed one", i, std.Count(), ren.Count())}
+		}
+	}
+	return nil
+}
+
 // runHerd: confluent concurrent writes, audited at quiescence against the model.
 func runHerd(c *Case) *verdict {
 	if c.Procs > 0 {
@@ -559,7 +614,7 @@ func nontrivialSeq(c *Case) bool {
 
 func TestC05(t *testing.T) {
 	run := ev.Start("C05", "exploration")
-	run.Rule("sequential: bounded-exhaustive op sequences over {Add,Set,Remove,Empty,Clear,Reset} x 4 topics x 2 values (length <= 3 quick, <= 5 thorough) and rapid op lists over 9-11 topics x 4 values with all queries, String() and all earlier returned slices re-checked after every step; concurrent: 2-16 goroutines running generated op lists on one tree under -race, history checked for linearizability against the map model (porcupine); herd: after a sequential prefix up to 16 goroutines issue commuting, idempotent writes (Add/Remove, the same write by 1-8 goroutines, no pair both added and removed) at the same moment, 30 (quick) / 200 rounds per case on fresh trees, then every query, Count and the printed structure are compared with the model (the result is the same for every interleaving). non-trivial = a removal empties a node under/above a still populated one, or (concurrent) >= 2 goroutines with both writes and queries, or (herd) one write issued by >= 2 goroutines at once; distinct by case JSON")
+	run.Rule("sequential: bounded-exhaustive op sequences over {Add,Set,Remove,Empty,Clear,Reset} x 4 topics x 2 values (length <= 3 quick, <= 5 thorough) and rapid op lists over 9-11 topics x 4 values with all queries, String() and all earlier returned slices re-checked after every step; concurrent: 2-16 goroutines running generated op lists on one tree under -race, history checked for linearizability against the map model (porcupine); renamed: the same generated history on a standard tree and on trees configured with another one-character separator and other wildcard symbols ('.', '*', '>' and others; topics translated level by level) must answer every query alike; herd: after a sequential prefix up to 16 goroutines issue commuting, idempotent writes (Add/Remove, the same write by 1-8 goroutines, no pair both added and removed) at the same moment, 30 (quick) / 200 rounds per case on fresh trees, then every query, Count and the printed structure are compared with the model (the result is the same for every interleaving). non-trivial = a removal empties a node under/above a still populated one, or (concurrent) >= 2 goroutines with both writes and queries, or (herd) one write issued by >= 2 goroutines at once; distinct by case JSON")
 	run.Assume("values are comparable and non-nil; Remove(t, nil) (alias of Empty) is not generated; Go scheduler interleavings are sampled")
 	defer run.Finish(t)
 	shard, shards := ev.Shard()
@@ -667,6 +722,22 @@ func TestC05(t *testing.T) {
 			run.Inconclusive()
 		}
 		if v != nil {
+			run.Candidate(v.sig, v.msg, c)
+			rt.Fatalf("%s: %s", v.sig, v.msg)
+		}
+	})
+
+	// --- other separator / wildcard symbols: same answers
+	run.Rapid(t, "renamed", ev.Pick(300, 6000), func(rt *rapid.T) {
+		c := &Case{Mode: rapid.SampledFrom([]string{"filters", "names"}).Draw(rt, "mode")}
+		for n := rapid.IntRange(1, 12).Draw(rt, "n"); n > 0; n-- {
+			c.Ops = append(c.Ops, genWrite(rt, c.Mode, 3))
+		}
+		sym := rapid.SampledFrom([][3]string{{".", "*", ">"}, {"/", "*", ">"}, {"|", "?", "**"}, {"|", "+", "#"}}).Draw(rt, "symbols")
+		run.Eval(1)
+		run.Class("renamed-symbols")
+		run.NonTrivialJSON(c)
+		if v := runRenamed(c, sym[0], sym[1], sym[2]); v != nil {
 			run.Candidate(v.sig, v.msg, c)
 			rt.Fatalf("%s: %s", v.sig, v.msg)
 		}
